@@ -207,7 +207,7 @@ pub fn prop() -> Prop {
         gen,
         check,
         panic_is_violation: false,
-        budget: (300_000, 8_000_000),
+        budget: (1800000, 48000000),
         extra: None,
         required: &["multi_line_roundtrip", "crlf_roundtrip", "subsequent_indent_recovered", "trailing_ending", "line_ending_rule_checked", "crlf_detected", "structural_multi_line"],
         known: None,
